@@ -435,7 +435,7 @@ def replay(path: str) -> int:
 # batch
 # --------------------------------------------------------------------------
 
-TIERS = {"quick": dict(runs=2500, wall=420), "thorough": dict(runs=60000, wall=3300)}
+TIERS = {"quick": dict(runs=2500, wall=420), "thorough": dict(runs=24000, wall=5400)}
 
 
 def run(tier: str) -> int:
